@@ -177,7 +177,7 @@ impl SchemaInner {
                         let interface = ty.as_interface().ok_or_else(|| {
                             format!("Type \"{}\" is not interface", interface_name)
                         })?;
-                        check_is_valid_implementation(obj, interface)?;
+                        check_is_valid_implementation(&self.types, obj, interface)?;
                     }
                 }
             }
@@ -339,7 +339,11 @@ impl SchemaInner {
                             let implemenented_type = ty.as_interface().ok_or_else(|| {
                                 format!("Type \"{}\" is not interface", interface_name)
                             })?;
-                            check_is_valid_implementation(interface, implemenented_type)?;
+                            check_is_valid_implementation(
+                                &self.types,
+                                interface,
+                                implemenented_type,
+                            )?;
                         }
                     }
                 }
@@ -376,9 +380,26 @@ impl SchemaInner {
 }
 
 fn check_is_valid_implementation(
+    types: &IndexMap<String, Type>,
     implementing_type: &impl BaseContainer,
     implemented_type: &Interface,
 ) -> Result<(), SchemaError> {
+    // an object is a sub-type of the unions it is a member of, an object or an
+    // interface is a sub-type of the interfaces it implements
+    let is_named_subtype =
+        |super_type: &str, sub_type: &str| match (types.get(super_type), types.get(sub_type)) {
+            (Some(Type::Union(union)), Some(Type::Object(_))) => {
+                union.possible_types.contains(sub_type)
+            }
+            (Some(Type::Interface(_)), Some(Type::Object(obj))) => {
+                obj.implements.contains(super_type)
+            }
+            (Some(Type::Interface(_)), Some(Type::Interface(interface))) => {
+                interface.implements.contains(super_type)
+            }
+            _ => false,
+        };
+
     for field in implemented_type.fields.values() {
         let impl_field = implementing_type.field(&field.name).ok_or_else(|| {
             format!(
@@ -441,7 +462,7 @@ fn check_is_valid_implementation(
 
         // field must return a type which is equal to or a sub-type of (covariant) the
         // return type of implementedField field’s return type
-        if !field.ty.is_subtype(impl_field.ty()) {
+        if !field.ty.is_subtype(impl_field.ty(), &is_named_subtype) {
             return Err(format!(
                 "Field \"{}.{}\" is not sub-type of \"{}.{}\"",
                 implementing_type.name(),
@@ -519,5 +540,55 @@ mod tests {
             .register(mid_level)
             .register(bot_level);
         schema.finish().unwrap_err();
+    }
+
+    #[test]
+    fn test_interface_field_of_named_subtype() {
+        use crate::dynamic::{Interface, InterfaceField, Union};
+
+        fn field(name: &str, ty: &str) -> Field {
+            Field::new(name, TypeRef::named(ty), |_| {
+                FieldFuture::new(async { Ok(None::<crate::dynamic::FieldValue>) })
+            })
+        }
+
+        // interface Node { next: Node any: Any }    union Any = A
+        // interface Named implements Node { next: <named_next> any: Any }
+        // type A implements Node & Named { next: <a_next> any: <a_any> }
+        // type B { next: B }
+        let schema = |named_next: &str, a_next: &str, a_any: &str| {
+            base_schema()
+                .register(
+                    Interface::new("Node")
+                        .field(InterfaceField::new("next", TypeRef::named("Node")))
+                        .field(InterfaceField::new("any", TypeRef::named("Any"))),
+                )
+                .register(
+                    Interface::new("Named")
+                        .implement("Node")
+                        .field(InterfaceField::new("next", TypeRef::named(named_next)))
+                        .field(InterfaceField::new("any", TypeRef::named("Any"))),
+                )
+                .register(
+                    Object::new("A")
+                        .implement("Node")
+                        .implement("Named")
+                        .field(field("next", a_next))
+                        .field(field("any", a_any)),
+                )
+                .register(Object::new("B").field(field("next", "B")))
+                .register(Union::new("Any").possible_type("A"))
+                .finish()
+        };
+
+        schema("Node", "Node", "Any").unwrap();
+        // an object or interface that implements the interface, a member of the union
+        schema("Named", "Named", "Any").unwrap();
+        schema("Named", "A", "A").unwrap();
+        // neither an implementation of `Node` nor a member of `Any`
+        schema("Node", "B", "Any").unwrap_err();
+        schema("Node", "Node", "B").unwrap_err();
+        // `Node` is not a sub-type of `Named`
+        schema("Named", "Node", "Any").unwrap_err();
     }
 }
